@@ -1971,6 +1971,20 @@ fn StoreCommandExtra(cmd: &Command, storage_ix: &mut usize, storage: &mut [u8]) 
     );
 }
 
+/// Verification hook (only with `--cfg brotli_verif`): runs the private StoreCommandExtra on
+/// an empty buffer and returns (copy_len_code, number of bits written, the bits).
+#[cfg(brotli_verif)]
+pub fn verif_store_command_extra(cmd: &Command) -> (u32, usize, u64) {
+    let mut storage = [0u8; 24];
+    let mut storage_ix: usize = 0;
+    StoreCommandExtra(cmd, &mut storage_ix, &mut storage);
+    let mut v: u64 = 0;
+    for i in 0..8 {
+        v |= (storage[i] as u64) << (8 * i);
+    }
+    (cmd.copy_len_code(), storage_ix, v)
+}
+
 fn Context(p1: u8, p2: u8, mode: ContextType) -> u8 {
     match mode {
         ContextType::CONTEXT_LSB6 => (p1 as i32 & 0x3fi32) as u8,
